@@ -149,6 +149,95 @@ pub fn check_string(s: &str, obs: &mut Obs, fingerprint: bool) {
     }
 }
 
+// ---- CPU time as a function of the input size (work outside the parser's own counters: tree building,
+// diagnostics, validation).  Thread CPU time, not wall clock; the verdict is a *ratio* of two sizes of
+// the same fragment with a wide margin over linear growth, confirmed by re-measuring.
+#[repr(C)]
+struct Timespec {
+    tv_sec: i64,
+    tv_nsec: i64,
+}
+extern "C" {
+    fn clock_gettime(clk: i32, ts: *mut Timespec) -> i32;
+}
+
+fn thread_cpu_seconds() -> f64 {
+    let mut ts = Timespec { tv_sec: 0, tv_nsec: 0 };
+    // CLOCK_THREAD_CPUTIME_ID = 3 on Linux
+    let rc = unsafe { clock_gettime(3, &mut ts) };
+    if rc != 0 {
+        return f64::NAN;
+    }
+    ts.tv_sec as f64 + ts.tv_nsec as f64 * 1e-9
+}
+
+pub const SCALING_FRAGMENTS: &[&str] = &[
+    "x = ;\n", "int ;\n", ") ;\n", "h q\n", "1 2;\n", "a b;\n", "gate ;\n", "int[ x;\n", "x = 1 +;\n", "def f( ;\n", "} ", "let a = ;\n", "int x = 1;\n", "h q;\n", "x;", "\"s\" ", "@a\n", "0x ",
+    "$ ", "] ",
+];
+const SCALING_SMALL: usize = 2_000;
+const SCALING_LARGE: usize = 16_000;
+
+fn scaling_case(i: usize, obs: &mut Obs) {
+    if cfg!(miri) {
+        obs.done(false);
+        return;
+    }
+    let frag = SCALING_FRAGMENTS[i % SCALING_FRAGMENTS.len()];
+    let entry = if (i / SCALING_FRAGMENTS.len()) % 2 == 0 { "parse" } else { "parse_check_lex" };
+    let small = frag.repeat(SCALING_SMALL);
+    let large = frag.repeat(SCALING_LARGE);
+    obs.fp.str(frag);
+    obs.fp.str(entry);
+    let measure = |s: &str| -> Result<f64, PanicInfo> {
+        let mut best = f64::INFINITY;
+        for _ in 0..2 {
+            let t0 = thread_cpu_seconds();
+            guard(|| {
+                if entry == "parse" {
+                    let p = SourceFile::parse(s);
+                    std::hint::black_box(p.errors().len());
+                } else {
+                    let p = SourceFile::parse_check_lex(s);
+                    std::hint::black_box(p.errors().len());
+                }
+            })?;
+            best = best.min(thread_cpu_seconds() - t0);
+        }
+        Ok(best)
+    };
+    let growth = (SCALING_LARGE / SCALING_SMALL) as f64;
+    let mut ratios = Vec::new();
+    for _attempt in 0..3 {
+        let (t1, t2) = match (measure(&small), measure(&large)) {
+            (Ok(a), Ok(b)) => (a, b),
+            _ => {
+                obs.inconclusive("parse panicked (decided by the other streams)");
+                return;
+            }
+        };
+        if !t1.is_finite() || !t2.is_finite() {
+            obs.inconclusive("thread CPU clock not available");
+            return;
+        }
+        let ratio = t2 / t1.max(1e-4);
+        ratios.push((t1, t2, ratio));
+        obs.maximum("cpu_time_ratio_x100_for_8x_input", (ratio * 100.0) as u64);
+        // linear growth gives about 8; anything up to 5 times that, or too short to judge, holds
+        if t2 < 0.4 || ratio <= growth * 5.0 {
+            obs.class("cpu-time-scaling-measured");
+            obs.note = format!("{frag:?} x {SCALING_SMALL} -> {t1:.3} s, x {SCALING_LARGE} -> {t2:.3} s CPU via {entry}: ratio {ratio:.1}");
+            obs.done(true);
+            return;
+        }
+    }
+    obs.violate(
+        format!("work-bound/cpu-time-superlinear/{entry}"),
+        format!("{frag:?} repeated {SCALING_SMALL} and {SCALING_LARGE} times via {entry}: thread CPU time (small, large, ratio) in three measurements {ratios:?}; an 8 times larger input must not cost more than 40 times as much"),
+    );
+    obs.done(true);
+}
+
 fn len5_full() -> bool {
     std::env::var("VERIF_C01_LEN5").map(|v| v == "full").unwrap_or(false)
 }
@@ -188,12 +277,17 @@ impl Property for C01 {
     fn streams(&self, tier: Tier, seed: u64) -> Vec<Stream> {
         let mut v = seq_streams(tier);
         v.extend(common::string_streams(0xC01, tier, seed, 1.0));
+        v.push(Stream::new("cpu-time-of-2000-vs-16000-copies", (SCALING_FRAGMENTS.len() * 2) as u64, true, |i| format!("scale:{i}")));
         v
     }
     fn check(&self, input: &str, obs: &mut Obs) {
         if let Some(s) = input.strip_prefix("s:") {
             check_string(s, obs, true);
             obs.note = format!("{} bytes; both entry points returned", s.len());
+            return;
+        }
+        if let Some(rest) = input.strip_prefix("scale:") {
+            scaling_case(rest.parse().unwrap_or(0), obs);
             return;
         }
         if let Some(rest) = input.strip_prefix("seq:") {
